@@ -24,6 +24,10 @@ from vlib import ToolError
 
 PROPS = ("C07", "C08")
 NSH = max(2, min(14, vlib.NCPU - 2))
+try:
+    THOROUGH_SAMPLE = max(1, min(1000, int(os.environ.get("VERIF_C07_SAMPLE", "1000"))))
+except ValueError:
+    THOROUGH_SAMPLE = 1000
 
 # ---------------------------------------------------------------- plans
 
@@ -38,7 +42,8 @@ def plan_c07(tier, seed):
         sims, simnum = 2, 20
     else:
         small = dict(base, Mode='"small"', Depth2=3)
-        three = dict(base, Mode='"three"', SampleNum=1000)
+        # all 27000 leaf triples per shape; VERIF_C07_SAMPLE=<per mille> trades exhaustiveness for time
+        three = dict(base, Mode='"three"', SampleNum=THOROUGH_SAMPLE)
         laws = dict(base, Mode='"laws"', LawDepth=2, SampleNum=10)
         sims, simnum = NSH, 300
     for sh in range(NSH):
@@ -238,12 +243,12 @@ def _run(ctx, replay):
     if prop == "C07":
         if not all(any("LAWS-OK" in m for m in r["marks"]) for r in tl if r["name"].startswith("laws")):
             raise ToolError("the law check of the reference did not complete")
-        args = ["-mode", "c07", "-in", outdir, "-seed", str(seed), "-variants", "2" if thorough else "1",
-                "-e2e", "600" if thorough else "60"]
+        args = ["-mode", "c07", "-in", outdir, "-seed", str(seed), "-variants", "1",
+                "-law-every", "8" if thorough else "1", "-e2e", "600" if thorough else "60"]
     else:
         if not all(any("AGREE-OK" in m for m in r["marks"]) for r in tl if r["name"].startswith("agree")):
             raise ToolError("the generator/recogniser agreement check did not complete")
-        args = ["-mode", "c08", "-in", outdir, "-seed", str(seed), "-kwvariants", "-1" if thorough else "2",
+        args = ["-mode", "c08", "-in", outdir, "-seed", str(seed), "-kwvariants", "4" if thorough else "2",
                 "-grpc", "3000" if thorough else "300", "-fuzz", "2000000" if thorough else "40000"]
     res = run_filtercheck(ctx, args, 6000 if thorough else 900)
     t_go = time.time() - t1
@@ -262,14 +267,14 @@ def _run(ctx, replay):
             "rule": "one evaluation = the real Evaluate (or one published message on a filtered subscription) on one (filter text, attribute map) pair compared with the TLA+ reference or with its law-partner; "
                     "a case is an AST enumerated by TLC; it is non-trivial when its reference verdict is not constant over the 64 attribute maps (the filter neither matches everything nor nothing); distinct = distinct AST",
             "samples": res["samples"][:5],
-            "exhaustive": bool(thorough),
+            "exhaustive": bool(thorough and THOROUGH_SAMPLE == 1000),
             "exhaustive_scope": ("all grammar-shaped ASTs over 3 names x 3 values with 1 leaf (every parenthesisation to depth 3), 2 leaves (every parenthesisation to depth %d), "
                                  "3 leaves (288 shapes with grouping parentheses to depth 3 and negated wholes; %s of the 27000 leaf triples per shape) x all 64 attribute maps; plus random ASTs with 4..7 leaves (TLC -simulate)")
-                                % (3 if thorough else 2, "all" if thorough else "a seeded 1% sample"),
+                                % (3 if thorough else 2, "all" if (thorough and THOROUGH_SAMPLE == 1000) else "a seeded %.1f%% sample" % (THOROUGH_SAMPLE / 10.0 if thorough else 1.0)),
             "asts": cnt.get("asts"), "asts_by_leaves": {k[5:-7]: v for k, v in cnt.items() if k.startswith("asts_") and k.endswith("_leaves")},
             "asts_ne_sensitive": cnt.get("asts_ne_sensitive"),
             "ne_variant_of_implementation": res.get("ne_variant"),
-            "law_checks_on_implementation": cnt.get("law_checks"),
+            "law_checks_on_implementation": cnt.get("law_checks"), "asts_with_law_checks": cnt.get("asts_with_law_checks"),
             "reference_law_check": "TLC, FilterEnum mode laws: %d shards completed (totality, determinism, double negation, De Morgan, commutativity, parenthesisation; both NeMissing variants; all 64 maps)" % by_kind.get("laws", {}).get("runs", 0),
             "grpc_filters": cnt.get("e2e_filters", 0), "grpc_messages": cnt.get("e2e_messages", 0),
             "tlc_runs": by_kind, "tlc_wall_s": round(t_tlc, 1), "harness_wall_s": round(t_go, 1),
